@@ -253,7 +253,9 @@ def c42(res, tier, seed):
 def _c40_key(ev):
     o = ev.get("out", {})
     obs = o.get("obs") or []
-    return [ev["base"].get("set", 0) if ev["base"].get("set", 0) < 0 else ev["base"]["set"] % 69, ev["base"].get("par", 0) % 32,
+    opt = ev["base"].get("opt") or {}
+    return [ev["base"].get("set", 0) if ev["base"].get("set", 0) < 0 else ev["base"]["set"] % 69,
+            [opt.get("site"), opt.get("typ"), opt.get("n"), opt.get("decl")] if opt else ev["base"].get("par", 0) % 32,
             "".join(s["mode"][0] + str(s["perm"]) for s in ev["steps"])[:6], sorted({x.get("err", "") for x in obs})]
 
 
@@ -263,15 +265,19 @@ def c40(res, tier, seed):
     q = tier == "quick"
     tour = os.path.join(scratch(), "c40.tour")
     # fresh processes are the expensive part (0.1 s each on an idle machine, 0.3 s when it is shared)
+    sites = ["file", "message", "field", "oneof", "enum", "value", "service", "method", "range"]
     if q:
-        configs = [dict(Modes=["in", "fresh"], Perms="{0, 1}", MaxPlan=2, Bases="{0, 13, 31}")]
+        # custom-option request shapes: every shape, every in-process plan of two runs (fresh processes see them in the driver)
+        configs = [dict(Modes=["in", "fresh"], Perms="{0, 1}", MaxPlan=2, Bases="{0, 13, 31}", ShapeSites=sites, ShapeModes=["in"])]
     else:
         bases = "{0, 2, 3, 4, 9, 10, 13, 14, 20, 27, 28, 30, 31, 39, 58, 62}"
-        configs = [dict(Modes=["in", "fresh"], Perms="{0, 1, 2}", MaxPlan=2, Bases=bases),
-                   dict(Modes=["in"], Perms="{0, 1, 2}", MaxPlan=3, Bases=bases)]
+        configs = [dict(Modes=["in", "fresh"], Perms="{0, 1, 2}", MaxPlan=2, Bases=bases, ShapeSites=["file", "field", "method"],
+                        ShapeModes=["in", "fresh"]),
+                   dict(Modes=["in"], Perms="{0, 1, 2}", MaxPlan=3, Bases=bases, ShapeSites=sites, ShapeModes=["in"])]
     for c in configs:
         r = tlc("MC_GenHistory", cfg({"Modes": _S(c["Modes"]), "Perms": c["Perms"], "Digs": "{1, 2}", "MaxPlan": c["MaxPlan"],
-                                      "Bases": c["Bases"], "Par0": seed % 32}, invariants=["Laws"], emit="Emit"),
+                                      "Bases": c["Bases"], "Par0": seed % 32, "ShapeSites": _S(c["ShapeSites"]),
+                                      "ShapeModes": _S(c["ShapeModes"])}, invariants=["Laws"], emit="Emit"),
                 emit_to=tour, workers=1, timeout=1500)
         res.add_tlc(r, "abstract possibly-nondeterministic generator: every plan of <= %d runs over modes %s x permutations %s with every "
                        "combination of observed digests; memo-table = relational definition of determinism, prefix closure, sensitivity"
@@ -329,6 +335,9 @@ def _c41_key(it, out):
     flags = "".join("1" if out.get(k) else "0" for k in _STAGES)
     if it["op"] == "shapes":
         return ["shapes", it["syn"], it["level"], flags]
+    if it["op"] == "services":
+        return ["services", it["level"], flags, sorted({(m["in"] != m["out"], m["cs"], m["ss"]) for m in it["methods"]})[:8],
+                out.get("methods") == [{k: m[k] for k in ("in", "out", "cs", "ss")} for m in it["methods"]]]
     if it["op"] == "msgnames":
         return ["msgnames", it["level"], "".join("m" if f["mem"] else "f" for f in it["fields"]), flags, out.get("dups", [])[:2]]
     return ["schema", it["level"], it["seed"] % 7, flags, min(out.get("messages", 0), 6)]
@@ -368,17 +377,22 @@ def c41(res, tier, seed):
     b = build_harness(("gen",))
     q = tier == "quick"
     t_shape, t_pipe = os.path.join(scratch(), "c41-shape.tour"), os.path.join(scratch(), "c41-pipe.tour")
+    t_svc = os.path.join(scratch(), "c41-svc.tour")
     kinds = ["bool", "int32", "string", "enum", "message", "group"] if q else \
         ["bool", "int32", "sint32", "uint32", "int64", "sint64", "uint64", "sfixed32", "fixed32", "float", "sfixed64", "fixed64",
          "double", "string", "bytes", "enum", "message", "group"]
     runs = _parallel([
         lambda: tlc("MC_GenSchema", cfg({"Kinds": _S(kinds)}, invariants=["Laws"], emit="Emit"), emit_to=t_shape, workers=1, timeout=1500),
         lambda: tlc("MC_GenPipe", cfg({"Levels": _S(["open", "hybrid", "opaque"]), "Pick": '"one"' if q else '"all"'},
-                                     invariants=["Laws"], emit="Emit"), emit_to=t_pipe, workers=1, timeout=1500)])
+                                     invariants=["Laws"], emit="Emit"), emit_to=t_pipe, workers=1, timeout=1500),
+        lambda: tlc("MC_GenService", cfg({"MaxM": 2 if q else 3}, invariants=["Laws"], emit="Emit"), emit_to=t_svc, workers=1, timeout=1500)])
     res.add_tlc(runs[0], "every field shape (syntax x cardinality x kind x container x packed x lazy x default): prohibitions = generative "
                          "grammar; presence discipline of the derived semantics")
     res.add_tlc(runs[1], "hostile and clean message declarations: every known naming defect is exhibited by its declaration, the clean "
                          "ones are predicted free of repeated identifiers")
+    res.add_tlc(runs[2], "every list of <= %d methods over 4 message types (two top-level, one nested, one imported): the generator's "
+                         "goTypes/depIdxs tables read the way the runtime reads them bind every reference as declared; a layout taking "
+                         "outputs from inputs is exposed exactly by methods with different input and output" % (2 if q else 3))
     res.exhaustive = True
     # ---- items: the valid shapes of each syntax packed into one message, at every API level; the declarations; random schemas
     by_syn = {}
@@ -391,6 +405,12 @@ def c41(res, tier, seed):
             items.append(dict(op="shapes", syn=syn, level=lv, shapes=[e["shape"] for e in es],
                               exp=dict(_ALLPASS, presence=[e["exp"]["presence"] for e in es], packed=[e["exp"]["packed"] for e in es])))
             whys.append(None)
+    # every method (input x output x streaming flags x service) of the GenService tour in one file with two services
+    meths = list(read_ndjson(t_svc))
+    for lv in ("open", "hybrid", "opaque"):
+        items.append(dict(op="services", level=lv, methods=[e["m"] for e in meths], exp=dict(_ALLPASS, methods=[e["exp"] for e in meths])))
+        whys.append(None)
+    n_fixed = len(items)
     for e in read_ndjson(t_pipe):
         whys.append(e.pop("pred")["why"])
         items.append(e)
@@ -450,12 +470,13 @@ def c41(res, tier, seed):
     res.extra["packages_compiled"] = sum(1 for o in outs if o.get("compiles"))
     res.extra["messages_checked"] = sum(o.get("messages", 0) for o in outs)
     res.extra["message_values_compared"] = sum(o.get("values", 0) for o in outs)
-    res.rule = ("tour: every valid field shape over %d kinds (TLC) packed into one message per syntax x 3 API levels; %d hostile/clean "
-                "declarations from the GoNamesMsg vocabulary; driver: %d seeded random schemas (nested messages, oneofs, maps, groups, "
-                "extensions, enums, editions features, lazy fields, > 64 fields, names that collide with generated identifiers); each "
+    res.rule = ("tour: every valid field shape over %d kinds (TLC) packed into one message per syntax x 3 API levels; every method "
+                "(4 input x 4 output types x 4 streaming combinations x 2 services) in one file x 3 API levels, the registered descriptor's "
+                "view of each method compared with the declaration; %d hostile/clean declarations from the GoNamesMsg vocabulary; driver: %d seeded random schemas (nested messages, oneofs, maps, groups, "
+                "extensions, enums, services with streaming methods, editions features, lazy fields, > 64 fields, names that collide with generated identifiers); each "
                 "package: protoc-gen-go -> gofmt -> go build -> self-test binary (descriptor equality, wire/JSON/reflection equivalence "
                 "with dynamicpb on seeded random values); distinct = (item kind, level, stage verdicts)"
-                % (len(kinds), n_tour - 9, len(items) - n_tour))
+                % (len(kinds), n_tour - n_fixed, len(items) - n_tour))
     res.assumptions += ["gofmt (go/format) and the Go compiler are sensors: their verdicts are recorded observations",
                         "descriptor equality is taken in protodesc's canonical rendering of both sides (an explicit syntax=\"proto2\" is dropped by every descriptor)",
                         "generated schemas carry no source info and no source-retention options, so their stripping is covered only trivially",
